@@ -144,6 +144,14 @@ type BatchJob struct {
 	// contracts into the fresh cache sequentially. Only used to continue the search
 	// behind known finding FX7 (VM compiles cached programs lazily and unsynchronised).
 	Warm bool `json:"warm,omitempty"`
+	// AloneOnly: only compute the reference traces: every program ALONE, each with its
+	// own fresh program cache (so the shared contracts are parsed and checked anew
+	// for every program), in a process that never ran anything concurrently.
+	AloneOnly bool `json:"alone_only,omitempty"`
+	// Alone are the reference traces (from an AloneOnly job run in another fresh
+	// process); the concurrent rounds AND the sequential runs over a shared cache
+	// (program order and reverse order) must all equal them.
+	Alone []StepTrace `json:"alone,omitempty"`
 }
 
 // BatchResult reports the comparison of the concurrent rounds with the
@@ -153,7 +161,8 @@ type BatchResult struct {
 	Rounds     int      `json:"rounds"`
 	Diffs      []string `json:"diffs,omitempty"` // "round r program i: <difference>"
 	SetupFail  string   `json:"setup_fail,omitempty"`
-	Classes    []string `json:"classes"` // outcome class of every program in the baseline
+	Alone      []StepTrace `json:"alone,omitempty"` // AloneOnly job: the reference traces
+	Classes    []string `json:"classes"` // outcome class of every program in the reference
 	Errs       []string `json:"errs,omitempty"`
 	CacheLoads int      `json:"cache_loads"`
 	CacheHits  int      `json:"cache_hits"`
@@ -171,9 +180,13 @@ func deployBase(b Batch, eng host.Engine) (*host.Host, string) {
 	return base, ""
 }
 
-// RunBatch runs the concurrent rounds FIRST (so that lazily initialised shared
+// RunBatch. AloneOnly job: every program alone with a fresh cache (the reference).
+// Otherwise: the concurrent rounds FIRST (so that lazily initialised shared
 // structures are touched for the first time concurrently when the process is
-// fresh) and then the sequential baseline, and compares per program.
+// fresh), then two sequential passes over one shared cache each (program order,
+// reverse order); every result is compared with the reference of the program
+// run alone: "behaves like sequential runs" of each program on its own, whatever
+// ran before it or runs next to it against the same shared imports.
 func RunBatch(j BatchJob) BatchResult {
 	eng := host.Engine(j.Engine)
 	res := BatchResult{Programs: len(j.Batch.Programs)}
@@ -182,24 +195,42 @@ func RunBatch(j BatchJob) BatchResult {
 		res.SetupFail = fail
 		return res
 	}
-	rnd := rand.New(rand.NewSource(j.Seed))
 	n := len(j.Batch.Programs)
+	if j.AloneOnly {
+		res.Alone = make([]StepTrace, n)
+		for i := range j.Batch.Programs {
+			res.Alone[i] = runShared(base, NewSharedPrograms(), j.Batch.Programs[i], eng)
+		}
+		return res
+	}
+	if len(j.Alone) != n {
+		res.SetupFail = fmt.Sprintf("%d reference traces for %d programs", len(j.Alone), n)
+		return res
+	}
+	rnd := rand.New(rand.NewSource(j.Seed))
 	rounds := j.Repeat
 	if rounds < 1 {
 		rounds = 1
 	}
+	warmUp := func(shared *SharedPrograms) bool {
+		if !j.Warm {
+			return true
+		}
+		warm := "access(all) fun main() {}"
+		for _, c := range j.Batch.Contracts {
+			warm = fmt.Sprintf("import %s from 0x%x\n", c.Name, c.Signers[0]) + warm
+		}
+		if st := runShared(base, shared, prog.Step{Kind: prog.Script, Source: warm}, eng); st.Class != "ok" {
+			res.SetupFail = "warm-up failed: " + st.ErrMsg
+			return false
+		}
+		return true
+	}
 	conc := make([][]StepTrace, rounds)
 	for r := 0; r < rounds; r++ {
 		shared := NewSharedPrograms()
-		if j.Warm {
-			warm := "access(all) fun main() {}"
-			for _, c := range j.Batch.Contracts {
-				warm = fmt.Sprintf("import %s from 0x%x\n", c.Name, c.Signers[0]) + warm
-			}
-			if st := runShared(base, shared, prog.Step{Kind: prog.Script, Source: warm}, eng); st.Class != "ok" {
-				res.SetupFail = "warm-up failed: " + st.ErrMsg
-				return res
-			}
+		if !warmUp(shared) {
+			return res
 		}
 		out := make([]StepTrace, n)
 		order := rnd.Perm(n)
@@ -226,24 +257,42 @@ func RunBatch(j BatchJob) BatchResult {
 		res.CacheLoads += shared.Loads
 		res.CacheHits += shared.Hits
 	}
-	// sequential baseline (fresh shared cache, program order)
-	shared := NewSharedPrograms()
-	baseline := make([]StepTrace, n)
-	for i := range j.Batch.Programs {
-		baseline[i] = runShared(base, shared, j.Batch.Programs[i], eng)
-		res.Classes = append(res.Classes, baseline[i].Class)
-		e := baseline[i].ErrMsg
+	// sequential passes over a shared cache: program order, reverse order
+	seq := make([][]StepTrace, 2)
+	for pass := range seq {
+		shared := NewSharedPrograms()
+		seq[pass] = make([]StepTrace, n)
+		for k := 0; k < n; k++ {
+			i := k
+			if pass == 1 {
+				i = n - 1 - k
+			}
+			seq[pass][i] = runShared(base, shared, j.Batch.Programs[i], eng)
+		}
+	}
+	for i := range j.Alone {
+		res.Classes = append(res.Classes, j.Alone[i].Class)
+		e := j.Alone[i].ErrMsg
 		if len(e) > 400 {
 			e = e[:400]
 		}
 		res.Errs = append(res.Errs, e)
 	}
-	for r := 0; r < rounds; r++ {
-		for i := range baseline {
-			if d := DiffStep(baseline[i], conc[r][i]); d != "" {
-				res.Diffs = append(res.Diffs, fmt.Sprintf("round %d program %d: %s", r, i, d))
+	for i := range j.Alone {
+		for pass := range seq {
+			if d := DiffStep(j.Alone[i], seq[pass][i]); d != "" {
+				res.Diffs = append(res.Diffs, fmt.Sprintf("sequential pass %d (%s) over a shared program cache, program %d (%s) differs from the program run alone: %s",
+					pass, []string{"program order", "reverse order"}[pass], i, j.Batch.Programs[i].Name, d))
 			}
 		}
+		for r := 0; r < rounds; r++ {
+			if d := DiffStep(j.Alone[i], conc[r][i]); d != "" {
+				res.Diffs = append(res.Diffs, fmt.Sprintf("concurrent round %d, program %d (%s) differs from the program run alone: %s", r, i, j.Batch.Programs[i].Name, d))
+			}
+		}
+	}
+	if len(res.Diffs) > 12 {
+		res.Diffs = append(res.Diffs[:12], fmt.Sprintf("... and %d more", len(res.Diffs)-12))
 	}
 	res.Rounds = rounds
 	return res
@@ -391,9 +440,195 @@ access(all) fun main(): [String] { var out: [String] = []; var i: UInt8 = 0; whi
 	}},
 }
 
+
+// entContract: interfaces with DISTINCT entitlement sets (conjunctive members and
+// disjunction-style access(C | D) members), used by the programs in intersections
+// {I1, I2}, post-conditions with `result`, attachments for interfaces, and
+// deliberately ill-typed programs whose checker errors depend on the entitlements
+// of ONE interface.
+const entContract = `access(all) contract Ent {
+    access(all) entitlement A
+    access(all) entitlement B
+    access(all) entitlement C
+    access(all) entitlement D
+    access(all) entitlement X
+    access(all) resource interface I1 { access(A) fun a(): Int; access(all) fun id(): Int { return 1 } }
+    access(all) resource interface I2 { access(B) fun b(): Int { return 2 } }
+    access(all) resource interface I3 { access(C | D) fun cd(): Int { return 3 } }
+    access(all) resource interface I4 { access(A | C) fun ac(): Int { return 4 }
+        access(X) fun x(): Int { return 5 } }
+    access(all) resource interface I5 { access(all) fun plain(): Int { return 6 } }
+    access(all) resource R: I1, I2, I3, I4, I5 { access(all) var n: Int; init() { self.n = 0 }
+        access(A) fun a(): Int { return 10 } }
+    access(all) attachment At1 for I1 { access(all) fun show(): Int { return base.id() + 100 } }
+    access(all) attachment At2 for I2 { access(B) fun b2(): Int { return 200 } }
+    access(all) attachment At3 for I3 { access(all) fun show(): Int { return 300 } }
+    access(all) attachment At5 for I5 { access(all) fun show(): Int { return base.plain() + 500 } }
+    access(all) fun make(): @R { return <- create R() }
+}`
+
+// model of entContract for the generator
+var entIfaces = []struct {
+	name string
+	ents []string   // conjunctive entitlements
+	disj [][]string // disjunctions
+}{
+	{"I1", []string{"A"}, nil},
+	{"I2", []string{"B"}, nil},
+	{"I3", nil, [][]string{{"C", "D"}}},
+	{"I4", []string{"X"}, [][]string{{"A", "C"}}},
+	{"I5", nil, nil},
+}
+var entAll = []string{"A", "B", "C", "D", "X"}
+
+// entSupported: the conjunctive entitlements of an intersection (after minimising)
+// and every entitlement its fully entitled access grants when used as a conjunction.
+func entConj(idx []int) []string {
+	seen := map[string]bool{}
+	var out []string
+	for _, i := range idx {
+		for _, e := range entIfaces[i].ents {
+			if !seen[e] {
+				seen[e] = true
+				out = append(out, e)
+			}
+		}
+	}
+	return out
+}
+
+// entGranted reports whether a fully entitled reference to the intersection is a
+// subtype of auth(e) &T.
+func entGranted(idx []int, e string) bool {
+	conj := entConj(idx)
+	for _, c := range conj {
+		if c == e {
+			return true
+		}
+	}
+	// remaining disjunctions (not containing a conjunctive entitlement)
+	var rest [][]string
+	for _, i := range idx {
+	next:
+		for _, d := range entIfaces[i].disj {
+			for _, x := range d {
+				for _, c := range conj {
+					if x == c {
+						continue next
+					}
+				}
+			}
+			rest = append(rest, d)
+		}
+	}
+	if len(conj) == 0 && len(rest) == 1 {
+		return false // access is the disjunction (C | D): does not grant C
+	}
+	for _, d := range rest {
+		for _, x := range d {
+			if x == e {
+				return true // over-approximated to the conjunction of everything
+			}
+		}
+	}
+	return false
+}
+
+func entSetName(idx []int) string {
+	s := "{"
+	for k, i := range idx {
+		if k > 0 {
+			s += ", "
+		}
+		s += "Ent." + entIfaces[i].name
+	}
+	return s + "}"
+}
+
+func entAuth(ents []string) string {
+	if len(ents) == 0 {
+		return ""
+	}
+	s := "auth("
+	for k, e := range ents {
+		if k > 0 {
+			s += ", "
+		}
+		s += "Ent." + e
+	}
+	return s + ") "
+}
+
+func entPick(r *rand.Rand, n int) []int { return r.Perm(len(entIfaces))[:n] }
+
+var entTemplates = []batchTemplate{
+	// the checker (post-condition `result`) and the interpreter (resultValue) compute the supported
+	// entitlements of an intersection of 2..3 imported interfaces with different entitlements
+	{"ent-intersection-result", func(r *rand.Rand) prog.Step {
+		idx := entPick(r, 2+r.Intn(2))
+		set := entSetName(idx)
+		probe := entAll[r.Intn(len(entAll))]
+		return prog.Step{Kind: prog.Script, MayFail: true, Source: fmt.Sprintf(`import Ent from 0x4
+access(all) view fun chk(_ r: %[2]s&%[1]s): Bool { return true }
+access(all) fun f(): @%[1]s { post { chk(result); ((result as? auth(Ent.%[3]s) &%[1]s) != nil) == %[4]v : "unexpected authorization of result" }
+ return <- Ent.make() }
+access(all) fun main(): [AnyStruct] { let r <- f(); let ref = &r as &%[1]s; let t = ref.getType().identifier; destroy r; return [t] }`,
+			set, entAuth(entConj(idx)), probe, entGranted(idx, probe))}
+	}},
+	// depends on the entitlements of ONE interface: ill-typed iff the interface does not support the entitlement
+	{"ent-single-result-static", func(r *rand.Rand) prog.Step {
+		idx := entPick(r, 1)
+		e := entAll[r.Intn(len(entAll))]
+		return prog.Step{Kind: prog.Script, MayFail: true, Source: fmt.Sprintf(`import Ent from 0x4
+access(all) view fun chk(_ r: auth(Ent.%[2]s) &%[1]s): Bool { return true }
+access(all) fun g(): @%[1]s { post { chk(result) }
+ return <- Ent.make() }
+access(all) fun main(): Int { let r <- g(); destroy r; return 1 }`, entSetName(idx), e)}
+	}},
+	{"ent-single-result-dynamic", func(r *rand.Rand) prog.Step {
+		idx := entPick(r, 1)
+		e := entAll[r.Intn(len(entAll))]
+		return prog.Step{Kind: prog.Script, MayFail: true, Source: fmt.Sprintf(`import Ent from 0x4
+access(all) fun g(): @%[1]s { post { ((result as? auth(Ent.%[2]s) &%[1]s) != nil) == %[3]v : "unexpected authorization of result" }
+ return <- Ent.make() }
+access(all) fun main(): Int { let r <- g(); destroy r; return 1 }`, entSetName(idx), e, entGranted(idx, e))}
+	}},
+	// an attachment declared by the program for ONE imported interface: its members may only use
+	// entitlements the interface supports; self / base are fully entitled
+	{"ent-attachment-decl", func(r *rand.Rand) prog.Step {
+		idx := entPick(r, 1)
+		e := entAll[r.Intn(len(entAll))]
+		return prog.Step{Kind: prog.Script, MayFail: true, Source: fmt.Sprintf(`import Ent from 0x4
+access(all) attachment Loc for Ent.%[1]s { access(Ent.%[2]s) fun z(): Int { return 7 }
+ access(all) fun selfType(): String { return self.getType().identifier } }
+access(all) fun main(): [AnyStruct] { let r <- Ent.make(); let r2 <- attach Loc() to <- r; let a = r2[Loc]!; let out: [AnyStruct] = [a.z(), a.getType().identifier, a.selfType()]; destroy r2; return out }`,
+			entIfaces[idx[0]].name, e)}
+	}},
+	// attachments of the shared contract for interfaces: the reference obtained from an owned value is
+	// entitled to what the attachment supports = its own members + what its base interface supports
+	{"ent-attachment-access", func(r *rand.Rand) prog.Step {
+		at := []struct {
+			name  string
+			iface int
+			own   []string
+		}{{"At1", 0, nil}, {"At2", 1, []string{"B"}}, {"At3", 2, nil}, {"At5", 4, nil}}[r.Intn(4)]
+		e := entAll[r.Intn(len(entAll))]
+		if r.Intn(2) == 0 {
+			// static: ill-typed unless the attachment supports the entitlement
+			return prog.Step{Kind: prog.Script, MayFail: true, Source: fmt.Sprintf(`import Ent from 0x4
+access(all) fun main(): Int { let r <- Ent.make(); let r2 <- attach Ent.%[1]s() to <- r; let a: auth(Ent.%[2]s) &Ent.%[1]s = r2[Ent.%[1]s]!; let n = a.getType().identifier.length; destroy r2; return n }`, at.name, e)}
+		}
+		return prog.Step{Kind: prog.Script, MayFail: true, Source: fmt.Sprintf(`import Ent from 0x4
+access(all) fun main(): [AnyStruct] { let r <- Ent.make(); let r2 <- attach Ent.%[1]s() to <- r; let a = r2[Ent.%[1]s]!
+ let out: [AnyStruct] = [a.getType().identifier, (a as? auth(Ent.%[2]s) &Ent.%[1]s) != nil]; destroy r2; return out }`, at.name, e)}
+	}},
+}
+
+func init() { batchTemplates = append(batchTemplates, entTemplates...) }
+
 // GenBatch generates a batch of n programs over the shared contracts.
 func GenBatch(r *rand.Rand, n int) Batch {
-	b := Batch{Contracts: []prog.Step{dep(1, "Lib", libContract), dep(2, "Lib2", lib2Contract), dep(3, "Lib3", lib3Contract)}}
+	b := Batch{Contracts: []prog.Step{dep(1, "Lib", libContract), dep(2, "Lib2", lib2Contract), dep(3, "Lib3", lib3Contract), dep(4, "Ent", entContract)}}
 	for i := 0; i < n; i++ {
 		t := batchTemplates[r.Intn(len(batchTemplates))]
 		s := t.gen(r)
